@@ -30,6 +30,10 @@ def generate(ctx):
         fmax = rng.choice([5.0, 50.0, 200.0, 900.0, 0.6 * 1000.0 / rms, 0.9 * 1000.0 / rms, round(rng.uniform(1.0, 0.95 * 1000.0 / rms), 2)])
         if kind == "exp_interval" and fmax * rms >= 1000:
             fmax = 900.0 / rms
+        if kind == "exp_interval" and not comp and rng.random() < 0.3:
+            # the frequency * refrac < 1000 limit belongs to compensation only: without it any rate is legal and the
+            # intervals are the refractory period plus an ever shorter exponential draw
+            fmax = rng.choice([1000.0, 1200.0, 2000.0, 5000.0, 20000.0]) / rms
         if kind in ("bernoulli", "inhomogeneous") and rng.random() < 0.3:
             # expected spikes per step above one: the documented behaviour is to clamp the probability at one
             fmax = rng.choice([1100.0, 1500.0, 4000.0]) / dt
@@ -189,6 +193,8 @@ def run_case(ctx, desc):
                                  {"steps_with_spikes": res[:, zero].any(-1).nonzero().view(-1).tolist()[:10]})
     if kind == "exp_interval":
         gap = 1 if rs is None else rs
+        if not desc["compensate"] and desc["frequency"] * (dt if rs is None else rs * dt) >= 1000:
+            ctx.count("uncompensated_above_compensation_limit")
         flat = res.reshape(steps, -1)
         for e in range(flat.shape[1]):
             idx = flat[:, e].nonzero().view(-1)
